@@ -216,6 +216,60 @@ Proof.
   destruct (fds (st_os s) c); [discriminate Ho|reflexivity].
 Qed.
 
+(* ------------------------------------------------------------------ the path keeps naming the file *)
+
+(* The model gives every client ONE inode for its path: no operation of any program unlinks,
+   renames or replaces a file (the lock lives on the inode, so this is what makes a lock on a
+   path meaningful).  Spelled out: an existing file exists after every step, under every policy
+   and in every schedule.  The runner checks the same of the code after every call (dev/inode
+   of the path before and after). *)
+Lemma os_step_keeps_file i c o flt e s r s' j :
+  os_step i c o flt e s = Some (r, s') -> files s j <> None -> files s' j <> None.
+Proof.
+  intros H Hj. unfold os_step in H.
+  destruct o; os_inv H; simpl; auto; unfold upd; destruct (Nat.eqb j i); auto; discriminate.
+Qed.
+
+Lemma osf_keeps_file i c o flt e s r s' j :
+  os_step_f i c o flt e s = Some (r, s') -> files s j <> None -> files s' j <> None.
+Proof.
+  intros H Hj. destruct flt; simpl in H; try (now apply (os_step_keeps_file _ _ _ _ _ _ _ _ j H));
+  destruct o; try (injection H as <- <-; exact Hj);
+  try (now apply (os_step_keeps_file _ _ _ _ _ _ _ _ j H));
+  (destruct (os_step i c OClose FNone e s) as [[r0 s0]|] eqn:E; [|discriminate H];
+   injection H as <- <-; now apply (os_step_keeps_file _ _ _ _ _ _ _ _ j E)).
+Qed.
+
+Theorem file_never_removed i c p pol : forall h s j,
+  files s j <> None ->
+  match run_pol i c p pol h s with (_, _, s') => files s' j <> None end.
+Proof.
+  induction p as [r|o k IH|o k IH]; intros h s j Hj; cbn [run_pol]; auto.
+  - destruct (os_step_f i c o _ false s) as [[r s']|] eqn:E; [|exact Hj].
+    apply IH. now apply (osf_keeps_file _ _ _ _ _ _ _ _ j E).
+  - destruct (os_step_f i c o _ false s) as [[r s']|] eqn:E; [|exact Hj].
+    pose proof (osf_keeps_file _ _ _ _ _ _ _ _ j E Hj) as Hj'.
+    destruct r; try exact Hj; now apply IH.
+Qed.
+
+Theorem file_never_removed_sched cfg f s j :
+  reachable cfg f s -> f j <> None -> files (st_os s) j <> None.
+Proof.
+  intros [sched ->] Hj.
+  assert (Hgen : forall sc s0, files (st_os s0) j <> None -> files (st_os (run cfg s0 sc)) j <> None).
+  { intros sc. induction sc as [|e sc IH]; intros s0 H0; [exact H0|]. simpl. apply IH.
+    destruct e as [c|c|c|c]; simpl.
+    - unfold run_client. destruct (progs s0 c) as [x|o k|o k]; simpl; auto;
+      destruct (os_step (c_ino (cfg c)) c o FNone false (st_os s0)) as [[r o2]|] eqn:E; simpl; auto;
+      try (destruct r); simpl; now apply (os_step_keeps_file _ _ _ _ _ _ _ _ j E).
+    - unfold run_client. destruct (progs s0 c) as [x|o k|o k]; simpl; auto;
+      destruct (os_step (c_ino (cfg c)) c o FNone true (st_os s0)) as [[r o2]|] eqn:E; simpl; auto;
+      try (destruct r); simpl; now apply (os_step_keeps_file _ _ _ _ _ _ _ _ j E).
+    - unfold os_dup. destruct (fds (st_os s0) c); exact H0.
+    - unfold os_dupclose. destruct (refs (st_os s0) c); exact H0. }
+  now apply Hgen.
+Qed.
+
 (* non-vacuity: the lock request fails, nothing is handed out; and a granted Mutex *)
 Example lock_failure_hands_out_nothing :
   match run_pol 0 0 (prog_of_call (CEdit (Ret ResOk)))
